@@ -10,6 +10,10 @@
 #include <fstream>
 #include <limits>
 #include <sstream>
+#include <atomic>
+#include <chrono>
+#include <thread>
+#include <vector>
 
 #include "cctz/time_zone.h"
 #include "trace.h"
@@ -75,6 +79,8 @@ int main(int argc, char** argv) {
   const std::vector<int64_t> fss = {0, 1, 100000000000000LL, 999999999999999LL, 123456789012345LL, 500000000000000LL, 1000000LL, 120000000000000LL};
   std::string line;
   uint64_t k = 0;
+  struct Sample { std::string fmt; TP tp; int64_t fs; const time_zone* tz; std::string out; };
+  std::vector<Sample> samples;
   while (std::getline(in, line)) {
     std::istringstream is(line);
     std::string tag, hf;
@@ -105,6 +111,8 @@ int main(int argc, char** argv) {
         VT_GUARD(ubh, (void)detail::format(big, tp, detail::femtoseconds(0), tz); o2 = detail::format(fmt, tp, detail::femtoseconds(fs), tz));
         if (ubh || o2 != o) hist = 0;
       }
+      if (tag == "F" && !ub && hist && (k % 3 == 0 || samples.size() < 600) && samples.size() < 6000)
+        samples.push_back(Sample{fmt, tp, fs, &tz, o});
       if (tag == "F") {
         std::tm tm = to_tm(al);
         std::string env = "[";
@@ -130,6 +138,37 @@ int main(int argc, char** argv) {
                  ",\"ub\":" + std::to_string(ub | ub2) + "}");
       }
     }
+  }
+  // format() is a function of its arguments under concurrent callers too: the calls judged above, repeated from several
+  // threads at once in different orders (different formats, years and zones side by side), give the judged texts again
+  if (!samples.empty()) {
+    unsigned nth = std::thread::hardware_concurrency();
+    nth = nth < 4 ? 4 : nth > 12 ? 12 : nth;
+    std::atomic<long> calls(0), mism(0);
+    std::atomic<long> firstbad(-1);
+    const auto until = std::chrono::steady_clock::now() + std::chrono::milliseconds(thorough ? 6000 : 2500);
+    std::vector<std::thread> th;
+    for (unsigned t = 0; t < nth; ++t)
+      th.emplace_back([&, t] {
+        const size_t n = samples.size();
+        size_t i = (size_t)t * 7919 % n;
+        const size_t step = 1 + (size_t)t * 2;       // co-prime walks differ per thread
+        long lc = 0, lm = 0;
+        while (std::chrono::steady_clock::now() < until) {
+          for (int b = 0; b < 256; ++b) {
+            const Sample& sm = samples[i];
+            if (detail::format(sm.fmt, sm.tp, detail::femtoseconds(sm.fs), *sm.tz) != sm.out) { ++lm; long exp = -1; firstbad.compare_exchange_strong(exp, (long)i); }
+            i = (i + step) % n;
+            ++lc;
+          }
+        }
+        calls += lc; mism += lm;
+      });
+    for (auto& x : th) x.join();
+    long fb = firstbad.load();
+    out.emit("{\"e\":\"Conc\",\"threads\":" + std::to_string(nth) + ",\"samples\":" + std::to_string(samples.size()) + ",\"calls\":" +
+             std::to_string(calls.load()) + ",\"mismatch\":" + std::to_string(mism.load()) + ",\"fmt\":" + bj(fb >= 0 ? samples[(size_t)fb].fmt : std::string()) +
+             ",\"ub\":0}");
   }
   fprintf(stderr, "drv_format: %llu events\n", (unsigned long long)out.count);
   out.close();
